@@ -102,6 +102,7 @@ func checkC04(c *Ctx) {
 		}
 	}
 	micWrappers(c, "R4.wrappers", true)
+	flowC04(c)
 	// ---- R3 encrypt
 	for _, v := range jaVariants() {
 		in := absint.NewInterp(c.Prog)
